@@ -40,14 +40,14 @@ def rng_rules(rep, prog, f, seed_param="random_state", unseeded_live=False):
         if e.kind == "draw_gen":
             g = e.what
             ok = isinstance(g.seed, RG.SeedV) and g.seed.api == f.qname
-            rep.check("R1.generator", ok, ewhere(e), "draw from a generator seeded with %s.%s%s" % (f.name, seed_param, via),
+            rep.decide("R1.generator", ok, ewhere(e), "draw from a generator seeded with %s.%s%s" % (f.name, seed_param, via),
                       "draw from a generator that is not seeded with %s's %s (seed: %r)%s" % (f.name, seed_param, g.seed, via))
         else:
             ok = e.state == ("seeded", f.qname)
             if not ok and isinstance(e.state, tuple) and e.state and e.state[0] == "seeded-mixed":
                 rep.unk("R1.global", ewhere(e), "the global stream is seeded on every path, but not in the same way on all of them (%s): not decided%s" % ("; ".join(e.state[1])[:120], via))
                 continue
-            rep.check("R1.global", ok, ewhere(e), "global-stream draw after a reseed with %s.%s on every path%s" % (f.name, seed_param, via),
+            rep.decide("R1.global", ok, ewhere(e), "global-stream draw after a reseed with %s.%s on every path%s" % (f.name, seed_param, via),
                       "draw from numpy's global stream that is not dominated by np.random.seed(%s) of %s (state: %s)%s" % (seed_param, f.name, e.state, via))
     if not draws and any(e.kind == "seed_global" and isinstance(e.what, RG.SeedV) and e.what.api == f.qname for e in effects):
         rep.ok("RNG.api", fwhere(f), "%s seeds numpy's global stream with its %s and draws nothing itself: a seeding helper" % (f.name, seed_param))
